@@ -77,6 +77,9 @@ def native_replay(native_factory, r):
             elif k != 'ok':
                 failed.append('no panic')
             else:
+                if not v.get('upstream_dropped', True):
+                    # some background thread is still alive (it owns the upstream) long after the drop
+                    failed.append(CLAIMS['drop_stuck'])
                 k2, v2 = k, v
                 # keeps pulling <=> the counter is far beyond the bound after the settle time
                 if v['pulled_end'] - v['pulled_at_action'] > r.get('drop_bound', W) + (2 * W if which == 'pipe_run' else cap + 1):
@@ -100,8 +103,8 @@ def validate_against_impl(native, seed):
         if k != 'ok' or v['pulled_end'] - len(v['outputs']) > 2 * W:
             raise Unsupported('model validation: real Pipe lookahead %r exceeds 2*W (W=%d)' % (v, W))
         k, v = native_ok(native.call('pipe_run', n=100000, w=W, delays_ms=[], consume=c, then='drop', settle_ms=150, _timeout=10.0))
-        if k != 'ok' or v['pulled_end'] - v['pulled_at_action'] > 3 * W:
-            raise Unsupported('model validation: real Pipe keeps pulling after drop: %r' % (v,))
+        if k != 'ok' or v['pulled_end'] - v['pulled_at_action'] > 3 * W or not v.get('upstream_dropped', True):
+            raise Unsupported('model validation: real Pipe keeps pulling / stays alive after drop: %r' % (v,))
         b = rng.randint(1, 3)
         k, v = native_ok(native.call('buffered_run', n=100000, buffer=b, delays_ms=[], consume=c, then='idle', settle_ms=150, _timeout=10.0))
         if k != 'ok' or v['pulled_end'] - len(v['outputs']) > b + 1:
